@@ -22,6 +22,7 @@ Exactly-once delivery to the received hook of PDUs that were read, and the sessi
 are checked by predicates on the traces.
 -/
 import SmppVerif.Lemmas.Discipline
+import SmppVerif.Gen.Site
 
 namespace SmppVerif.Props.C15
 open SmppVerif SmppVerif.Discipline SmppVerif.Lemmas.Discipline
@@ -60,9 +61,18 @@ example : run { bindCmd := 9 } [.connect 0, .announce bindTrx, .write 0 (bindTrx
 example : run { bindCmd := 9 } [.connect 0, .announce bindTrx, .write 0 bindTrx, .announce (enq 2), .write 0 (enq 2)] = none := by
   decide +kernel
 
+/-- TIE TO THE SOURCE (regenerated on every run, Gen/Site.lean): the primitive steps of `ESME._send_data` in source order are
+    the ones the monitor and the interleaving model assume — wait for the bound state, build the PDU, announce it to the
+    sending hook, write it, drain (the steps this property does not depend on are projected away). -/
+theorem send_data_step_order :
+    Gen.Site.sendData.filter (fun x => x ∈ ["wait", "pdu", "sending", "write", "drain"]) =
+      ["wait", "pdu", "sending", "write", "drain"] := by
+  decide
+
 end SmppVerif.Props.C15
 
 #print axioms SmppVerif.Props.C15.wire_is_whole_pdus
 #print axioms SmppVerif.Props.C15.writes_were_announced
 #print axioms SmppVerif.Props.C15.framing
 #print axioms SmppVerif.Props.C15.all_interleavings_accepted
+#print axioms SmppVerif.Props.C15.send_data_step_order
